@@ -163,6 +163,13 @@ func VH_array(steps int, size0 int) {
 	}
 	env.Define("c", nil)
 	maVar[2] = -1
+	// other ways to reach the array held by a: as an element of another array and as a
+	// property of an object (an array is a shared reference wherever it is held)
+	hv, _ := in.eval(&ast.ArrayLiteral{Elements: []ast.Expr{ident("a", 1)}, Line: 1}, env, false)
+	env.Define("h", hv)
+	ov, _ := in.eval(objectLiteralVia(env, lit(0.0, 1)), env, false)
+	env.Define("o", ov)
+	in.eval(&ast.PropertyAssignment{Object: ident("o", 1), Property: tok(token.IDENTIFIER, "p", 1), Value: ident("a", 1), Line: 1}, env, false)
 	arCompare(env)
 	for s := 0; s < steps; s++ {
 		line := 10 + s
@@ -173,13 +180,22 @@ func VH_array(steps int, size0 int) {
 		m := maVar[src]
 		dst := 1 + verifChoice(2) // result goes to b or c
 		op := verifChoice(6)
+		arrayExpr := ast.Expr(ident(arVarNames[src], line))
+		if src == 0 {
+			switch verifChoice(3) {
+			case 1:
+				arrayExpr = &ast.ArrayAccess{Array: ident("h", line), Index: lit(0.0, line), Line: line}
+			case 2:
+				arrayExpr = &ast.PropertyAccess{Object: ident("o", line), Property: tok(token.IDENTIFIER, "p", line), Line: line}
+			}
+		}
 		utils.HadRuntimeError = false
 		verifClearEvents()
 		switch op {
 		case 0: // indexed write with an arbitrary index value
 			idx := hvValue(reach.mask(), 1)
 			nv := maFresh()
-			got, _ := in.eval(&ast.ArrayAssignment{Array: ident(arVarNames[src], line), Index: lit(idx, line), Value: lit(nv, line), Line: line}, env, false)
+			got, _ := in.eval(&ast.ArrayAssignment{Array: arrayExpr, Index: lit(idx, line), Value: lit(nv, line), Line: line}, env, false)
 			i, ok, open := specIndex(idx, maArr[m].n)
 			if open {
 				return
@@ -194,7 +210,7 @@ func VH_array(steps int, size0 int) {
 			maArr[m].elems[i] = nv
 		case 1: // indexed read
 			idx := hvValue(reach.mask(), 1)
-			got, _ := in.eval(&ast.ArrayAccess{Array: ident(arVarNames[src], line), Index: lit(idx, line), Line: line}, env, false)
+			got, _ := in.eval(&ast.ArrayAccess{Array: arrayExpr, Index: lit(idx, line), Line: line}, env, false)
 			i, ok, open := specIndex(idx, maArr[m].n)
 			if open {
 				return
@@ -209,7 +225,7 @@ func VH_array(steps int, size0 int) {
 			f, isF := got.(float64)
 			verifAssert("indexed-read-yields-the-element", isF && f == maArr[m].elems[i])
 		case 2: // length, used as a number
-			got, _ := in.eval(callNamed(nameLen, line, ident(arVarNames[src], line)), env, false)
+			got, _ := in.eval(callNamed(nameLen, line, arrayExpr), env, false)
 			if !arExpectOK() {
 				return
 			}
@@ -224,7 +240,7 @@ func VH_array(steps int, size0 int) {
 			verifAssert("length-equals-the-same-number", isB && cb)
 		case 3, 4: // append one / two values; result stored in dst
 			x := maFresh()
-			args := []ast.Expr{ident(arVarNames[src], line), lit(x, line)}
+			args := []ast.Expr{arrayExpr, lit(x, line)}
 			if op == 4 {
 				args = append(args, lit(maFresh(), line))
 			}
@@ -247,7 +263,7 @@ func VH_array(steps int, size0 int) {
 			maVar[dst] = r
 		default: // remove at an arbitrary index value
 			idx := hvValue(reach.mask(), 1)
-			call := callNamed(nameRemove, line, ident(arVarNames[src], line), lit(idx, line))
+			call := callNamed(nameRemove, line, arrayExpr, lit(idx, line))
 			asg := &ast.AssignmentStmt{Name: tok(token.IDENTIFIER, arVarNames[dst], line), Value: call, Line: line}
 			got, _ := in.eval(asg, env, false)
 			i, ok, open := specIndex(idx, maArr[m].n)
@@ -307,7 +323,8 @@ func VH_cyclic(which int) {
 	if which == 2 {
 		target = "o"
 	}
-	use := verifChoice(4)
+	tv, _ := env.Get(target)
+	use := verifChoice(9)
 	switch use {
 	case 0:
 		in.eval(&ast.PrintStatement{Expression: ident(target, 3)}, env, false)
@@ -316,11 +333,36 @@ func VH_cyclic(which int) {
 		in.eval(&ast.ExpressionStatement{Expression: ident(target, 3)}, env, true) // REPL echo
 		verifAssert("echoing-a-self-containing-value-ends", hvCountStdout() == 1 || utils.HadRuntimeError)
 	case 2:
-		r := evaluateBinary(a, tok(token.EQUAL_EQUAL, "==", 3), a)
+		r := evaluateBinary(tv, tok(token.EQUAL_EQUAL, "==", 3), tv)
 		rb, isB := r.(bool)
 		verifAssert("self-containing-value-equals-itself", isB && rb)
-	default:
-		evaluateBinary("s", tok(token.PLUS, "+", 3), a)
+	case 3:
+		evaluateBinary("s", tok(token.PLUS, "+", 3), tv)
 		verifAssert("concatenating-a-container-is-an-error-not-a-crash", utils.HadRuntimeError)
+	case 4: // every binary operator with the value on either side: an ordinary runtime error
+		ty := verifNondetInt(0, int(token.EOF))
+		verifAssume(isBinaryOp(token.TokenType(ty)))
+		verifAssume(token.TokenType(ty) != token.EQUAL_EQUAL && token.TokenType(ty) != token.BANG_EQUAL)
+		if verifNondetBool() {
+			evaluateBinary(tv, tok(token.TokenType(ty), "op", 3), 1.0)
+		} else {
+			evaluateBinary(1.0, tok(token.TokenType(ty), "op", 3), tv)
+		}
+		verifAssert("operator-on-a-container-is-an-error-not-a-crash", utils.HadRuntimeError)
+	case 5: // unary operators
+		ty := verifNondetInt(0, int(token.EOF))
+		evaluateUnary(tok(token.TokenType(ty), "op", 3), tv)
+	case 6: // every math built-in
+		w := verifChoice(9)
+		in.eval(callNamed(mathNames[w], 3, ident(target, 3)), env, false)
+		if w != 7 && w != 8 {
+			verifAssert("builtin-on-a-container-is-an-error-not-a-crash", utils.HadRuntimeError)
+		}
+	case 7: // as an index and as a removal index
+		in.eval(&ast.ArrayAccess{Array: ident("b", 3), Index: ident(target, 3), Line: 3}, env, false)
+		verifAssert("container-as-index-is-an-error-not-a-crash", utils.HadRuntimeError)
+	default: // missing property on it / of it: the diagnostic quotes the expression, not the value
+		in.eval(&ast.PropertyAccess{Object: ident(target, 3), Property: tok(token.IDENTIFIER, "nope", 3), Line: 3}, env, false)
+		verifAssert("missing-property-on-a-container-is-an-error-not-a-crash", utils.HadRuntimeError)
 	}
 }
